@@ -516,6 +516,16 @@ func TestReplay(t *testing.T) {
 		}
 		var c Case
 		if err := stdjson.Unmarshal(raw, &c); err != nil || len(c.Rounds) == 0 {
+			var dcase DistinctCase
+			if err := stdjson.Unmarshal(raw, &dcase); err == nil && dcase.Rounds > 0 && dcase.Op != "" {
+				evid.Eval(1)
+				for i := 0; i < 5; i++ {
+					if f := checkDistinctCase(dcase); f != nil {
+						evid.Violation(t, "Replay", dcase, f)
+					}
+				}
+				continue
+			}
 			var gcase GenCase
 			if err := stdjson.Unmarshal(raw, &gcase); err == nil && gcase.G > 0 {
 				evid.Eval(1)
